@@ -8,6 +8,7 @@ import (
 
 	rc "verifharness/refcbor"
 	"verifharness/refcose"
+	"verifharness/stats"
 )
 
 // CsigSpec describes one countersignature (full: labels 7/11; abbreviated:
@@ -84,6 +85,8 @@ type MsgOpts struct {
 	PayloadLens []int
 	// NoCoincide switches the coincidence rewrites of coincide.go off
 	NoCoincide bool
+	// NoManySigners keeps COSE_Sign messages within MaxSigners
+	NoManySigners bool
 }
 
 func expand(seed []byte, n int) []byte {
@@ -219,19 +222,38 @@ func Msg(t *rapid.T, o MsgOpts) MsgSpec {
 				n = rapid.IntRange(3, max).Draw(t, "nsig3")
 			}
 		}
+		many := false
+		if max >= 3 && !o.NoManySigners && rapid.IntRange(0, 11).Draw(t, "nsig-many") == 0 {
+			// far more signers than a hand-written test lists (whatever an implementation does differently from
+			// some count on: batching, worker pools, pre-sized tables); cheap keys only
+			n = rapid.SampledFrom([]int{7, 8, 9, 10, 11, 12, 13, 15, 16, 17, 18, 19, 31, 32, 33, 34, 41}).Draw(t, "nsig-many-n")
+			many = true
+			stats.Class("many-signers")
+		}
 		// body headers carry no alg
 		bo := o.Hdr
 		bo.Alg = nil
 		m.Prot, m.Unprot = Headers(t, bo)
 		for i := 0; i < n; i++ {
-			s := SigSpec{Key: drawKey(t, o), ViaKey: rapid.IntRange(0, 4).Draw(t, "viakey") == 0}
+			ko := o
+			if many && o.FixedAlg == nil {
+				cheap := rapid.SampledFrom([]int64{refcose.AlgEdDSA, refcose.AlgEdDSA, refcose.AlgES256}).Draw(t, "many-alg")
+				ko.FixedAlg = &cheap
+			}
+			s := SigSpec{Key: drawKey(t, ko), ViaKey: rapid.IntRange(0, 4).Draw(t, "viakey") == 0}
 			if s.Key.Curve != 0 {
 				s.ViaKey = false // a COSE_Key fixes the algorithm of its curve
 			}
 			so := o
 			so.Hdr.MaxEntries = 4
+			if many {
+				so.Hdr.MaxEntries = 1
+				so.Hdr.PadBoundary = false
+			}
 			s.Prot, s.Unprot, s.NoAlg, s.Inject = layerHeaders(t, so, s.Key.Alg, hasExt)
-			s.Groups = drawGroups(t, o, 1)
+			if !many {
+				s.Groups = drawGroups(t, o, 1)
+			}
 			m.Sigs = append(m.Sigs, s)
 		}
 	} else {
